@@ -216,6 +216,60 @@ def schedule_sites(ctx, prop):
     ctx.floor(rule, n, 9, 'schedule() call sites')
 
 
+def schedule_delay_exact(ctx, prop):
+    """A due time handed to schedule() as a *difference from the current time* (delay = t - now) is queued at
+    now + (t - now), which in floating point is not always t: the occurrence drifts an ulp off the instant that was
+    asked for (before or after occurrences due exactly at t).  The tables cannot see this - over the reals the two
+    keys are equal - so it is a rule of its own over every schedule() site of the kernel: the delay argument, with
+    local temporaries resolved, must not subtract the clock."""
+    rule = prop + '.G.delay-exact'
+    n = 0
+
+    def is_clock(e):
+        return isinstance(e, ast.Attribute) and e.attr in ('now', '_now')
+
+    for f in ctx.repo.all_functions():
+        if not f.module.name.startswith('onl.sim'):
+            continue
+        assigns = {}
+        for node in walk_local(f.node):
+            if isinstance(node, ast.Assign) and len(node.targets) == 1 and isinstance(node.targets[0], ast.Name):
+                assigns.setdefault(node.targets[0].id, []).append(node.value)
+
+        def resolve(e, depth=0):
+            if isinstance(e, ast.Name) and len(assigns.get(e.id, [])) == 1 and depth < 4:
+                return resolve(assigns[e.id][0], depth + 1)
+            return e
+
+        def subtracts_clock(e, depth=0):
+            e = resolve(e)
+            for x in ast.walk(e):
+                if isinstance(x, ast.BinOp) and isinstance(x.op, ast.Sub) and any(is_clock(y) for y in ast.walk(x.right)):
+                    return True
+                if isinstance(x, ast.Name) and x is not e and depth < 4 and len(assigns.get(x.id, [])) == 1 \
+                        and subtracts_clock(assigns[x.id][0], depth + 1):
+                    return True
+            return False
+        for node in walk_local(f.node):
+            if isinstance(node, ast.Call) and isinstance(node.func, ast.Attribute) and node.func.attr == 'schedule':
+                delay = node.args[2] if len(node.args) >= 3 else None
+                for k in node.keywords:
+                    if k.arg == 'delay':
+                        delay = k.value
+                n += 1
+                bad = delay is not None and subtracts_clock(delay)
+                ctx.ob(rule, not bad)
+                construct = '%s::%s' % (f.module.relpath, f.qualname)
+                if bad:
+                    ctx.violation(rule, construct, 'delay subtracts the clock',
+                                  '%s schedules with delay %s, a difference from the current time: now + (t - now) is not '
+                                  'always t in floating point, the occurrence is queued an ulp off the instant asked for'
+                                  % (f.qualname, ast.unparse(delay)), where='%s:%d' % (f.module.relpath, node.lineno))
+                else:
+                    ctx.sample(rule, construct, 'schedule() delay %s does not subtract the clock' % (ast.unparse(delay) if delay is not None else '(default 0)'))
+    ctx.floor(rule, n, 5, 'schedule() call sites in the kernel')
+
+
 def priority_constants(ctx, prop):
     rule = prop + '.W.constants'
     mod = ctx.repo.modules.get('onl.sim.events')
@@ -327,6 +381,49 @@ def callback_list_discipline(ctx, prop):
             ctx.violation(rule, '%s::%s' % (f.module.relpath, f.qualname), 'store to .callbacks (%s)' % kind,
                           '%s rebinds a callbacks list' % f.qualname, where='%s:%d' % (f.module.relpath, node.lineno))
     ctx.floor(rule, n, 9, 'callbacks sites')
+
+
+def raising_callbacks_private(ctx, prop):
+    """step() calls the callbacks of an event one after the other; a callback that raises (the kernel's stop
+    callback) cuts that loop short, so every waiter registered behind it is never invoked.  Such a callback may
+    therefore sit only on an event nobody else can wait for: one created in the same function (the private
+    run-until sentinel).  Path based: on every path, the receiver of `<x>.callbacks.append(StopSimulation.callback)`
+    is the symbol of an Event(...) construction of that path."""
+    rule = prop + '.W.stop-callback'
+    from ..paths import Options
+    n = 0
+    for f in ctx.repo.all_functions():
+        if not f.module.name.startswith('onl.sim'):
+            continue
+        sites = [node for node in walk_local(f.node)
+                 if isinstance(node, ast.Call) and isinstance(node.func, ast.Attribute) and node.func.attr == 'append'
+                 and isinstance(node.func.value, ast.Attribute) and node.func.value.attr == 'callbacks'
+                 and node.args and ast.unparse(node.args[0]).endswith('StopSimulation.callback')]
+        if not sites:
+            continue
+        cls = f.cls
+        bad = {}
+        seen = 0
+        for p in ctx.paths(cls, f, Options()):
+            for e in p.effects:
+                if e.kind == 'call' and e.target and e.target.endswith('.callbacks.append') and e.args \
+                        and e.args[0].endswith('StopSimulation.callback'):
+                    seen += 1
+                    recv = e.target[:-len('.callbacks.append')]
+                    if not recv.startswith('@Event('):
+                        bad[e.lineno] = recv
+        n += len(sites)
+        construct = '%s::%s' % (f.module.relpath, f.qualname)
+        ctx.ob(rule, not bad, max(1, len(sites)))
+        if bad:
+            for ln, recv in sorted(bad.items()):
+                ctx.violation(rule, construct, 'stop callback on %s' % recv,
+                              '%s appends the raising stop callback to the callbacks of %s, an event others may wait for: waiters '
+                              'registered behind it are never invoked when it is dispatched' % (f.qualname, recv),
+                              where='%s:%d' % (f.module.relpath, ln))
+        else:
+            ctx.sample(rule, construct, 'the stop callback is appended only to an event created on the same path (%d path sites)' % seen)
+    ctx.floor(rule, n, 1, 'appends of the stop callback')
 
 
 def exception_cloning(ctx, prop):
